@@ -20,7 +20,7 @@ func init() {
 			"R2": "published hand blinds are a fresh composite literal (no alias of the mutable level)",
 			"R3": "single consistent read: one by-value snapshot, or readers and writers under the engine mutex",
 			"R4": "writers: level fields only in the update operation (param i → field i); hand-blind record only at hand start; level pointer only at creation",
-			"R5": "break guards: open refuses before rotate/increment; pause predicate uses the break predicate; creation on a break starts paused; predicates asked of the live level; blinds-set predicate definition; a table created paused stays paused",
+			"R5": "break guards: open refuses before rotate/increment; pause predicate uses the break predicate; creation on a break starts paused; predicates asked of the live level; blinds-set predicate definition; a table created paused stays paused; the continue handler pauses iff the pause predicate holds when the interval has elapsed",
 		},
 		Assumptions: []string{"pokerface charges exactly the ante/blinds it is given in the options"},
 		Run:         checkC12,
@@ -32,6 +32,9 @@ var blindFields = []string{"Level", "Ante", "Dealer", "SB", "BB"}
 
 func checkC12(c *Ctx) {
 	p := c.P
+	// "the table pauses after the current hand": the pause decision is taken by the continue handler when the
+	// interval has elapsed (shared with C08.R1) — a break that starts during the interval is honoured
+	checkContinueHandler(c, "R5")
 	et := p.singleImpl("", "TableEngine")
 	if et == nil {
 		c.Bad("R1", "anchors", "-", "engine not found")
